@@ -132,6 +132,8 @@ impl Tr for NoInfoTr { type A = u32; }
 pub struct NoInfoG<T>(pub T);
 #[derive(TypeInfo)]
 pub struct Inner<T>(pub T);
+#[derive(TypeInfo)]
+pub struct InnerLt<'a>(pub &'a str);
 '''
     progs.write_if_changed(os.path.join(FP, 'src', 'prelude.rs'), prelude)
     defs = corpus_sources()
